@@ -822,7 +822,132 @@ func ruleR14_5(c *Check) {
 	r.ExitsNeed(g, "validate", val, 0, exitSuccess)
 }
 
+func ruleR14_6(c *Check) {
+	w := c.W
+	r := c.Rule("R14.6", "E5", 3, "levelHandler.validate rejects a level (>= 1) in which some table's biggest key is >= the next table's smallest key, or a table whose smallest key exceeds its biggest; levelsController.validate checks every level",
+		"this is the check Open and StreamWriter.Flush rely on to refuse an overlapping or unsorted level")
+	f := w.F("badger.levelHandler.validate")
+	ck := w.Func("y.CompareKeys")
+	inter, intra := false, false
+	var interB, interS int64
+	tablesFld := w.Field("badger.levelHandler.tables")
+	stepped := map[types.Object]bool{}
+	f.walk(func(n ast.Node) bool {
+		if s, ok := n.(*ast.IncDecStmt); ok {
+			if id, ok := s.X.(*ast.Ident); ok {
+				stepped[w.Use(id)] = true
+			}
+		}
+		return true
+	})
+	loopVar := func(e ast.Expr) bool {
+		id, ok := e.(*ast.Ident)
+		return ok && stepped[w.Use(id)]
+	}
+	f.walk(func(n ast.Node) bool {
+		is, ok := n.(*ast.IfStmt)
+		if !ok || !w.terminates(is.Body.List) {
+			return true
+		}
+		// oriented as CompareKeys(<x>.Biggest(), <y>.Smallest()) op 0
+		isBig := func(e ast.Expr) bool { return isCallNamed(w, w.from(e), "Biggest") }
+		isSmall := func(e ast.Expr) bool { return isCallNamed(w, w.from(e), "Smallest") }
+		op, call, ok := w.threeWay(is.Cond, true, isBig, ck)
+		if !ok {
+			return true
+		}
+		var big, small ast.Expr
+		for _, a := range call.Args {
+			if isBig(a) {
+				big = recvOf(w.from(a).(*ast.CallExpr))
+			} else if isSmall(a) {
+				small = recvOf(w.from(a).(*ast.CallExpr))
+			}
+		}
+		if big == nil || small == nil {
+			return true
+		}
+		big, small = w.from(big), w.from(small)
+		bi, okB := unparen(big).(*ast.IndexExpr)
+		si, okS := unparen(small).(*ast.IndexExpr)
+		if !okB || !okS || w.fieldOf(bi.X) != tablesFld || w.fieldOf(si.X) != tablesFld {
+			return true
+		}
+		aB, bB, ok1 := w.linear(f, bi.Index, loopVar, 0)
+		aS, bS, ok2 := w.linear(f, si.Index, loopVar, 0)
+		if !ok1 || !ok2 || aB != 1 || aS != 1 {
+			return true
+		}
+		switch bS - bB {
+		case 1:
+			r.Check(op == token.GEQ, f, "neighbouring tables must not touch or overlap (Biggest(j-1) >= Smallest(j) is an error)", is.Cond, "inter-table test is 'Biggest(j-1) "+op.String()+" Smallest(j)'")
+			inter, interB, interS = true, bB, bS
+		case 0:
+			r.Check(op == token.LSS, f, "a table's smallest key must not exceed its biggest (Biggest(j) < Smallest(j) is an error)", is.Cond, "intra-table test is 'Biggest(j) "+op.String()+" Smallest(j)'")
+			intra = true
+		}
+		return true
+	})
+	// the scan covers every neighbouring pair: the loop starts at the first pair and runs to the end of tables
+	f.walk(func(n ast.Node) bool {
+		fs, ok := n.(*ast.ForStmt)
+		if !ok || fs.Cond == nil {
+			return true
+		}
+		be, ok := unparen(fs.Cond).(*ast.BinaryExpr)
+		if !ok {
+			return true
+		}
+		isLen := func(e ast.Expr) bool {
+			c, ok := unparen(e).(*ast.CallExpr)
+			return ok && len(c.Args) == 1 && isBuiltin(w, c, "len") && w.fieldOf(c.Args[0]) == tablesFld
+		}
+		bound, op := be.Y, be.Op
+		if !loopVar(unparen(be.X)) {
+			bound, op = be.X, swapOp(be.Op)
+		}
+		a, k, okl := w.linear(f, bound, isLen, 0)
+		if op == token.LEQ {
+			k++
+		}
+		// last index looked at is (bound-1)+interS; it must reach len-1
+		r.Check(okl && a == 1 && (op == token.LSS || op == token.LEQ) && k+interS >= 0, f, "the validation loop runs to the end of the level's tables", fs.Cond, "the loop stops before the last pair of tables")
+		if as, ok := fs.Init.(*ast.AssignStmt); ok && len(as.Rhs) == 1 {
+			v, isC := w.constInt(as.Rhs[0])
+			r.Check(isC && v+interB <= 0, f, "the validation loop starts at the first table", fs.Init, "loop starts past the first pair of tables")
+		}
+		return true
+	})
+	// only level 0 is exempt: every `return nil` other than the function's last statement is taken under level == 0
+	levelFld := w.Field("badger.levelHandler.level")
+	last := f.Body.List[len(f.Body.List)-1]
+	f.walk(func(n ast.Node) bool {
+		rs, ok := n.(*ast.ReturnStmt)
+		if !ok || ast.Node(rs) == ast.Node(last) || len(rs.Results) != 1 || !isNil(rs.Results[0]) {
+			return true
+		}
+		op, g := w.guardRel(w.Guards(f, rs), w.isField(levelFld), w.isConst(0), true)
+		r.Check(g != nil && (op == token.EQL || op == token.LEQ), f, "only level 0 is exempt from validation", rs, "validate returns success early for levels other than 0")
+		return true
+	})
+	r.Check(inter, f, "inter-table order test present", nil, "validate no longer compares Biggest(j-1) with Smallest(j)")
+	r.Check(intra, f, "intra-table order test present", nil, "validate no longer compares a table's Smallest with its Biggest")
+	lc := w.F("badger.levelsController.validate")
+	okAll := false
+	lc.walk(func(n ast.Node) bool {
+		if rs, ok := n.(*ast.RangeStmt); ok && w.fieldOf(rs.X) == w.Field("badger.levelsController.levels") && containsSel(w, lc, rs.Body, selCallName(w, "badger.levelHandler.validate")) {
+			okAll = true
+		}
+		return true
+	})
+	r.Check(okAll, lc, "every level is validated", nil, "levelsController.validate does not call validate for each level")
+	for _, s := range lc.Sites(selCallName(w, "badger.levelHandler.validate")) {
+		r.Check(w.errIsFatal(lc, s.(*ast.CallExpr)), lc, "a failing level fails validation", s, "the error of levelHandler.validate can be ignored")
+	}
+}
+
 func propC14(c *Check) {
+	ruleR14_6(c)
 	ruleR14_1(c)
 	ruleR14_2(c)
 	ruleR14_3(c)
